@@ -849,4 +849,112 @@ theorem mem_used_task_target (allocF : Int → Int → Int → Int → Option In
     obtain ⟨u, thr, v, h1, h2, h3, h4, h5⟩ := key _ hto
     exact ⟨u, thr, v, h1, h2, h3, rfl, h4, h5⟩
 
+/-! ### A.9 EvictTaskCheck — the per-task verdict reported after the run says "finished" exactly when the
+    task's target is covered by what the whole trace credits. -/
+theorem evict_task_check_iff_met (isEv : Nat → Bool) (script : List Bool) (tasks : List Task) (t : Task) :
+    taskDone t (killAndEvict isEv script tasks).released = true ↔
+      Met (aggOf tasks) t (killAndEvict isEv script tasks).logRev := by
+  rw [← met_iff (kill_inv isEv script tasks) t]
+  unfold taskDone
+  constructor
+  · intro h
+    rcases Bool.or_eq_true_iff.mp h with h1 | h1
+    · unfold remaining
+      have : t.toRelease = [] := by simpa using h1
+      simp [this]
+    · exact h1
+  · intro h; simp [h]
+
+/-! ### E.4 no early stop, end to end (the Lean side of the oracle clause `C11:stops-before-target-covered`):
+    for every task memoryEvict / cpuEvict runs, when its turn is over its target is covered by the credited
+    releases, or every pod of its list has been credited or has had a failed eviction call of this task. -/
+theorem mem_e2e_no_early_stop (allocF : Int → Int → Int → Int → Option Int) (c : MemCfg) (pods : List RawPod)
+    (isEv : Nat → Bool) (script : List Bool) (st : St) (h : memoryEvict allocF c pods isEv script = some st)
+    (f : MemFeature) (t : Task) (hft : (f, t) ∈ memTasks allocF c pods) :
+    ∃ ti newer older, st.logRev = newer ++ older ∧
+      (Met (aggOf ((memTasks allocF c pods).map (·.2))) t older ∨
+        ∀ e ∈ t.pods, e.pod ∈ creditedPods older ∨ (⟨ti, e, .fail⟩ : Ev) ∈ older) := by
+  unfold memoryEvict at h
+  by_cases hemp : (memTasks allocF c pods).isEmpty = true <;> simp [hemp] at h
+  subst h
+  have hmem : t ∈ (memTasks allocF c pods).map (·.2) := List.mem_map.mpr ⟨(f, t), hft, rfl⟩
+  obtain ⟨ti, hti⟩ := List.getElem?_of_mem hmem
+  obtain ⟨newer, older, h1, h2⟩ := no_candidate_skipped isEv script _ ti t hti
+  exact ⟨ti, newer, older, h1, h2⟩
+
+theorem cpu_e2e_no_early_stop (usage : Int → Int → Int) (allocF : Int → Int → Int → Int → Option Int) (c : CpuCfg)
+    (pods : List RawPod) (isEv : Nat → Bool) (script : List Bool) (st : St)
+    (h : cpuEvict usage allocF c pods isEv script = some st)
+    (f : CpuFeature) (t : Task) (hft : (f, t) ∈ cpuTasks usage allocF c pods) :
+    ∃ ti newer older, st.logRev = newer ++ older ∧
+      (Met (aggOf ((cpuTasks usage allocF c pods).map (·.2))) t older ∨
+        ∀ e ∈ t.pods, e.pod ∈ creditedPods older ∨ (⟨ti, e, .fail⟩ : Ev) ∈ older) := by
+  unfold cpuEvict at h
+  by_cases hemp : (cpuTasks usage allocF c pods).isEmpty = true <;> simp [hemp] at h
+  subst h
+  have hmem : t ∈ (cpuTasks usage allocF c pods).map (·.2) := List.mem_map.mpr ⟨(f, t), hft, rfl⟩
+  obtain ⟨ti, hti⟩ := List.getElem?_of_mem hmem
+  obtain ⟨newer, older, h1, h2⟩ := no_candidate_skipped isEv script _ ti t hti
+  exact ⟨ti, newer, older, h1, h2⟩
+
+/-- the usage a victim of a usage-based memory task is credited with is the `MemoryUsed` of its list entry,
+    i.e. `int64(metric)` bytes on BOTH paths after the repair (was ×1000 on the priority path): the entry
+    built for a listed info carries `i.used`, and the task's function reads exactly that field. -/
+theorem mem_usage_credit_is_used (pods : List RawPod) (midIn batchIn : Bool) (i : Info) (to : List (Nat × Int))
+    (es : List Entry) :
+    fnOut { target := 0, toRelease := to, fn := [(1, 0)], pods := es } (memEntry pods midIn batchIn i)
+      = [((0, 1), i.used)] := by
+  simp [fnOut, memEntry]
+
+/-- non-vacuity of Part E and the repaired conversion: node at 90 % of 200 bytes, threshold 80 / lower 70
+    ⇒ target 40 bytes; MemoryEvict on; three eligible koord-batch pods using 30, 20, 10 bytes (metrics
+    30000, 20000, 10000 = ×1000).  Two victims (30 + 20 ≥ 40) — with the ×1000 credit one would have sufficed. -/
+example :
+    let mk (id : Nat) (m : Int) : RawPod :=
+      { id := id, name := id, qosLabel := 0, kubeQoS := 1, phase := 1, specPrio := some 5500, clsLabel := 0,
+        evictLabel := 1, evictPrio := .absent, prioLabel := .absent, policyTop := 0, policyElems := [],
+        hasMetric := true, used := m, reqNative := 1, reqMid := 0, reqBatch := 0, batchReq := 0 }
+    let c : MemCfg := { beOn := false, allocOn := false, memOn := true, thr := some 80, lower := some 70,
+                        prioThr := some 5999, aThr := none, aLower := none, aPrioThr := none, capacity := 200,
+                        nodeUsed := some 180, allocMem := none, allocBatch := none, allocMid := none }
+    ((memoryEvict (fun _ _ _ _ => none) c [mk 0 10000, mk 1 30000, mk 2 20000] (fun _ => false) []).map
+      fun st => st.logRev.reverse.map (fun ev => (ev.e.pod, ev.kind))) = some [(1, .ok), (2, .ok)] := by decide
+
+theorem cpu_used_task_target (usage : Int → Int → Int) (allocF : Int → Int → Int → Int → Option Int) (c : CpuCfg)
+    (pods : List RawPod) (t : Task) (h : cpuTask usage allocF c pods .cpu = some t) :
+    ∃ u thr v, c.nodeUsed = some u ∧ c.thr = some thr ∧ t.toRelease = [(0, v)] ∧ t.target = 0 ∧
+      ¬ Int.tdiv (u * 100) c.capacity < thr ∧
+      v = Int.tdiv (c.capacity * (Int.tdiv (u * 100) c.capacity - c.lower.getD (thr - cpuBuffer))) 100 := by
+  unfold cpuTask at h
+  by_cases hc : c.usedOK = true <;> simp [hc] at h
+  cases hu : c.usedTarget <;> cases hp : c.prioThr <;> simp [hu, hp] at h
+  subst h
+  rename_i to pt
+  unfold CpuCfg.usedTarget at hu
+  cases hn : c.nodeUsed <;> cases ht : c.thr <;> simp [hn, ht] at hu
+  rename_i u thr
+  obtain ⟨v, hv, rfl⟩ := hu
+  refine ⟨u, thr, v, rfl, rfl, rfl, rfl, ?_, target_formula _ _ _ _ _ _ hv⟩
+  intro hlt
+  rw [(target_none_iff_below_threshold c.capacity u thr c.lower cpuBuffer).mpr hlt] at hv
+  cases hv
+
+/-- the open finding `C11:victim-frees-nothing-short`, end to end: MemoryAllocatableEvict, one koord-free
+    pod (priority 3500, native memory request 800) pushes requested/allocatable `memory` over the threshold,
+    so the task's target is {memory: 400}; the task's function only reports mid-memory and batch-memory, so NOTHING
+    is ever credited under `memory` and the whole candidate list — including the two koord-batch pods whose
+    batch-memory is far below its threshold — is evicted.  (`allocF` stands for the float64 comparison.) -/
+example :
+    let mk (id : Nat) (pr : Int) (rn rb : Int) : RawPod :=
+      { id := id, name := id, qosLabel := 0, kubeQoS := 1, phase := 1, specPrio := some pr, clsLabel := 0,
+        evictLabel := 1, evictPrio := .absent, prioLabel := .absent, policyTop := 0, policyElems := [],
+        hasMetric := true, used := 1000, reqNative := rn, reqMid := 0, reqBatch := rb, batchReq := 0 }
+    let c : MemCfg := { beOn := false, allocOn := true, memOn := false, thr := none, lower := none,
+                        prioThr := none, aThr := some 50, aLower := some 40, aPrioThr := some 5999, capacity := 1000,
+                        nodeUsed := none, allocMem := some 1000, allocBatch := some 100000, allocMid := none }
+    let allocF := fun (rq sum _ _ : Int) => if rq * 2 > sum then some (400 : Int) else none
+    ((memoryEvict allocF c [mk 0 3500 800 0, mk 1 5500 100 300, mk 2 5600 100 200] (fun _ => false) []).map
+      fun st => (st.logRev.reverse.map (fun ev => (ev.e.pod, ev.kind)), st.released)) =
+      some ([(0, .ok), (1, .ok), (2, .ok)], []) := by decide
+
 end KoordVerif.C11
